@@ -92,16 +92,16 @@ func ParseHeaderDirective(header http.Header) *HeaderDirectives {
 				hd.IfMatch.value = typeutils.Some(value)
 			}
 		case "If-Range":
-			if value != "" {
-				if t, err := http.ParseTime(value); err == nil {
-					timeIfRange := typeutils.Right[eTag](t)
-					hd.IfRange.value = typeutils.Some(timeIfRange)
-					continue
-				}
-
-				etagIfRange := typeutils.Left[eTag, time.Time](value)
-				hd.IfRange.value = typeutils.Some(etagIfRange)
+			// An empty If-Range is still an If-Range: it names no validator, so it matches nothing
+			// and the range must not be served on the strength of it.
+			if t, err := http.ParseTime(value); err == nil {
+				timeIfRange := typeutils.Right[eTag](t)
+				hd.IfRange.value = typeutils.Some(timeIfRange)
+				continue
 			}
+
+			etagIfRange := typeutils.Left[eTag, time.Time](value)
+			hd.IfRange.value = typeutils.Some(etagIfRange)
 		case "Range":
 			if rh, err := parseRangeHeader(value); err == nil {
 				hd.Range.value = typeutils.Some(rh)
